@@ -219,10 +219,13 @@ def eval_group(env, group, tier):
             mkv = b'\x1a\x45\xdf\xa3\x80\x18\x53\x80\x67\x93\x11\x4d\x9b\x74\x8e\x4d\xbb\x8b\x53\xab\x84\x15\x49\xa9\x66\x53\xac\x81\x00'
             tree = {'ok.txt': F(3), 'nofix.tif': F(data=tif), 'rec.wav': F(data=wav_nodata), 'zero.wav': F(data=wav_rate0), 'clip.mkv': F(data=mkv),
                     'icons.svg': D({'inner': F(1)}), 'dang.svg': L('nowhere'), 'bad.svg': F(data=b'<svg \xff\xfe width="1">'), 'secret.svg': F(data='<svg/>', mode=0),
-                    'pipe.png': {'t': 'p'}, 'pipe.mp3': {'t': 'p'}, 'z.mp4': F(data=b'\x00\x00\x00\x08ftyp'), 'e.jpg': F(0), 'ok2.txt': F(4)}
+                    'pipe.png': {'t': 'p'}, 'pipe.mp3': {'t': 'p'}, 'z.mp4': F(data=b'\x00\x00\x00\x08ftyp'), 'e.jpg': F(0), 'ok2.txt': F(4),
+                    # an ID3v2 tag with the unsynchronisation flag behind a stray FF 00 (the tag reader indexes an empty buffer), with and without extension
+                    'tag.mp3': F(data=b'\xff\x00ID3\x03\x00\x80\x00\x00\x00\x00' + b'\x00' * 16), 'tagfile': F(data=b'\xff\x00ID3\x03\x00\x80\x00\x00\x00\x00' + b'\x01' * 11)}
             core.materialise(root, tree)
             names = sorted(p for p, n, l in core.walk_tree(tree))
-            for cols in (['width', 'height'], ['duration'], ['exif_make', 'exif_lat'], ['mp3_title', 'mp3_year'], ['width', 'duration', 'exif_model', 'size']):
+            for cols in (['width', 'height'], ['duration'], ['exif_make', 'exif_lat'], ['mp3_title', 'mp3_year'], ['width', 'duration', 'exif_model', 'size'],
+                         ['bitrate', 'freq', 'genre'], ['artist', 'album']):
                 for form in ('select', 'where'):
                     sub = ['media', cols, form]
                     if only is not None and sub != only:
@@ -240,7 +243,8 @@ def eval_group(env, group, tier):
                         bad = ('media-reader-crash', o.brief())
                     elif rows is None or sorted(r[0] for r in rows) != ['./' + n for n in names]:
                         bad = ('media-rows-lost', {'got': sorted(r[0] for r in (rows or []))[:20], 'stderr': o.brief()['err']})
-                    elif form == 'select' and any(v for r in rows for c, v in zip(cols, r[2:]) if c != 'size' and os.path.basename(r[0]) not in ('e.jpg',)):
+                    elif form == 'select' and any(v for r in rows for c, v in zip(cols, r[2:]) if c != 'size' and os.path.basename(r[0]) not in ('e.jpg',)
+                                                  and not (c in ('bitrate', 'freq') and os.path.basename(r[0]) == 'bad.svg')):      # FF FE reads as an MPEG frame header
                         bad = ('media-value-from-unreadable', {'rows': [r for r in rows if any(r[2:])][:5]})
                     emit(sub, bad is None, bad[0] if bad else None, dict(bad[1], query=q) if bad else None)
         elif kind == 'root':
